@@ -12,7 +12,9 @@ import (
 	"encoding/json"
 	"fmt"
 	"strings"
+	"sync"
 	"testing"
+	"unsafe"
 
 	"github.com/cockroachdb/redact/builder"
 	i "github.com/cockroachdb/redact/interfaces"
@@ -196,3 +198,122 @@ func vBounded(prop, law string, cases, nontrivial int, rule, bound string, exhau
 
 var _ = bytes.Equal
 var _ = strings.Split
+
+
+// ---------------------------------------------------------------------------------------------------
+// shared storage (C12: operands shared between concurrent calls; C13: accessors and by-value copies)
+
+// vBufHeader reads the slice header of the builder's byte buffer (first field of internal/buffer.Buffer, which
+// StringBuilder embeds first): the only way to look at the spare capacity behind the contents.
+func vBufHeader(sb *builder.StringBuilder) []byte { return *(*[]byte)(unsafe.Pointer(sb)) }
+
+type vSharedStat struct {
+	Cases, Nontrivial int
+}
+
+// vSharedStorage checks, for builders in many states, that the "conceptually read-only" uses of a builder
+// (the accessors, on the object or on a by-value copy, and printing it as an operand, also from several
+// goroutines at once) store nothing into the backing array the builder shares with its copies, that they do not
+// change what the original later returns, and that a RedactableBytes() result is not changed by later writes.
+// fail(call, output, why) reports a violation; goroutines > 1 also prints the operand concurrently.
+func vSharedStorage(goroutines int, fail func(call, out, why string)) (st vSharedStat) {
+	firsts := []string{"abc", "a\nb", "", "x" + vS, "é", "\xe2\x80"}
+	fills := []int{0, 40, 57, 58, 59, 60, 61}
+	type use struct {
+		name string
+		do   func(c builder.StringBuilder)
+	}
+	uses := []use{
+		{"c.RedactableString()", func(c builder.StringBuilder) { _ = c.RedactableString() }},
+		{"c.RedactableBytes()", func(c builder.StringBuilder) { _ = c.RedactableBytes() }},
+		{"c.String()", func(c builder.StringBuilder) { _ = c.String() }},
+		{"c.Len()", func(c builder.StringBuilder) { _ = c.Len() }},
+		{"Sprint(c)", func(c builder.StringBuilder) { _ = Sprint(c) }},
+		{"Sprintf(\"%v %s\", c, &c)", func(c builder.StringBuilder) { _ = Sprintf("%v %s", c, &c) }},
+	}
+	mk := func(first string, fill int, unsafeFirst bool) (*builder.StringBuilder, string) {
+		sb := &builder.StringBuilder{}
+		txt := "var sb StringBuilder; "
+		if fill > 0 {
+			sb.SafeString(i.SafeString(strings.Repeat("f", fill)))
+			txt += fmt.Sprintf("sb.SafeString(%d x \"f\"); ", fill)
+		}
+		if unsafeFirst {
+			sb.UnsafeString(first)
+			txt += fmt.Sprintf("sb.UnsafeString(%q); ", first)
+		} else {
+			sb.SafeString(i.SafeString(first))
+			txt += fmt.Sprintf("sb.SafeString(%q); ", first)
+		}
+		return sb, txt
+	}
+	for _, first := range firsts {
+		for _, fill := range fills {
+			for _, uf := range []bool{true, false} {
+				for _, u := range uses {
+					// (a) nothing is stored into the spare capacity
+					sb, txt := mk(first, fill, uf)
+					h := vBufHeader(sb)
+					spare := h[len(h):cap(h)]
+					for k := range spare {
+						spare[k] = 0xAA
+					}
+					run := func() { u.do(*sb) }
+					if goroutines > 1 {
+						var wg sync.WaitGroup
+						for g := 0; g < goroutines; g++ {
+							wg.Add(1)
+							go func() { defer wg.Done(); run() }()
+						}
+						wg.Wait()
+					} else {
+						run()
+					}
+					st.Cases++
+					if uf && len(spare) >= 3 {
+						st.Nontrivial++ // an envelope is open: finalizing a copy has a closing marker to put somewhere
+					}
+					for k := range spare {
+						if spare[k] != 0xAA {
+							fail(txt+"c := sb /* by value */; "+u.name, fmt.Sprintf("% x", spare[:k+1]),
+								fmt.Sprintf("a read-only use of a builder stored byte %#x at offset %d of the spare capacity it shares with the original (concurrent uses of the same operand race on it, and a later write of the original is overwritten)", spare[k], k))
+							return
+						}
+					}
+					// (b) a use of an earlier by-value copy does not change what the original returns later
+					sb, txt = mk(first, fill, uf)
+					ref, _ := mk(first, fill, uf)
+					c := *sb
+					for _, b := range []*builder.StringBuilder{sb, ref} {
+						b.UnsafeString("defgh")
+						b.SafeString(" tail")
+					}
+					u.do(c)
+					st.Cases++
+					st.Nontrivial++
+					if got, want := sb.RedactableString(), ref.RedactableString(); got != want {
+						fail(txt+"c := sb /* by value */; sb.UnsafeString(\"defgh\"); sb.SafeString(\" tail\"); "+u.name+"; sb.RedactableString()", string(got),
+							fmt.Sprintf("a read-only use of an earlier copy of the builder changed what the builder returns: want %q", want))
+						return
+					}
+				}
+				// (c) a RedactableBytes() result is a value: later writes and Reset do not change it
+				sb, txt := mk(first, fill, uf)
+				rb := sb.RedactableBytes()
+				was := string(rb)
+				sb.UnsafeString("yyyy")
+				sb.SafeString("zz")
+				sb.Reset()
+				sb.UnsafeString("pw")
+				st.Cases++
+				st.Nontrivial++
+				if string(rb) != was {
+					fail(txt+"rb := sb.RedactableBytes(); sb.UnsafeString(\"yyyy\"); sb.SafeString(\"zz\"); sb.Reset(); sb.UnsafeString(\"pw\"); rb", string(rb),
+						fmt.Sprintf("the bytes returned by RedactableBytes() were changed by later writes to the builder: they were %q", was))
+					return
+				}
+			}
+		}
+	}
+	return st
+}
